@@ -1162,6 +1162,12 @@ MUTANTS = [
                 "            else:\n                state_quantity += \\\n                        _force_pass_arguments(method, **specie_kwargs)*coeff")]},
 ]
 EQUIV = [
+    {'name': 'the terms of a state are collected in a list and added up with the builtin sum',
+     'edits': [(R, "            state_quantity = 0.\n\n        for specie, coeff in zip(species, stoich):",
+                "            state_quantity = 0.\n        terms = []\n\n        for specie, coeff in zip(species, stoich):"),
+               (R, "                state_quantity += \\\n                        _force_pass_arguments(method, **specie_kwargs)*coeff\n        return state_quantity",
+                "                terms.append(\n                    _force_pass_arguments(method, **specie_kwargs)*coeff)\n"
+                "        if method_name != 'get_q':\n            return sum(terms, 0.)\n        return state_quantity")]},
     {'name': 'delta written as -(initial - final)',
      'edits': [(R, '            return final_quantity - initial_quantity', '            return -(initial_quantity - final_quantity)')]},
     {'name': 'UnboundLocalError named instead of its base class NameError (whitebox2 B1)',
